@@ -2,20 +2,23 @@
    Model: ConcDefs.  Every party runs one of the I/O protocols of IODefs unchanged (move, move across
    devices, rewrite = label / add-header, discard; flag is a move) or is a mail client renaming / deleting
    the message; calls are atomic and arbitrarily interleaved; outcomes come from the shared directory state.
-   Proved, for every pair and every triple of such parties and EVERY schedule (not only the single and double
-   preemptions of the property's quantifier): once all have finished, the message exists exactly once, intact -
+   Proved, for ANY NUMBER of such parties and EVERY schedule (C17_any_number_of_parties; not only the single and
+   double preemptions of the property's quantifier): once all have finished, the message exists exactly once, intact -
    or not at all if a party whose job is to delete it reports success -, no empty or partial file remains,
    a party that reports success owns the surviving copy, and no party ever modifies a name another party
-   created.  The proof is an exhaustive exploration checked by the kernel: a table of states that contains
-   the initial state and is closed under every step contains every reachable state (reach_in_table).
-   The bound (at most three parties) is part of the statements.
+   created.  The proof for any number of parties is compositional (ConcNDefs / ConcNProofs): seen through its own
+   three names every party moves inside a finite table of states (its own calls, plus "somebody else removed the
+   message" at any moment) that the kernel checks to be closed; an invariant of the whole system says that the
+   message's name disappears exactly once, through exactly one party's successful rename / unlink, and that every
+   party's view stays inside its table.  The earlier theorems for two and three parties (exhaustive exploration of
+   the product, reach_in_table) are kept: they do not depend on the compositional argument.
    NOT covered by the model: a second mdsort that WALKS the directory while the first one's uncommitted
    copy is visible there selects that copy as a message (placeholders and copies are created in new/ and cur/,
    not in tmp/): known finding F-16, exhibited by harness/c17.py on the binary; true simultaneity inside the
    kernel is represented by call-granularity interleaving. *)
 From Coq Require Import List.
 Import ListNotations.
-From MD Require Import IODefs ConcDefs ConcProofs.
+From MD Require Import IODefs ConcDefs ConcProofs ConcNDefs ConcNProofs.
 
 Theorem C17_two_parties : forall a b sched, In a all_kinds -> In b all_kinds ->
   let s := grun [a; b] (init_state 2) sched in
@@ -28,6 +31,31 @@ Theorem C17_three_parties : forall a b c sched, In a all_kinds -> In b all_kinds
   finished [a; b; c] s = true -> final_ok [a; b; c] s = true /\ winners_report [a; b; c] s = true.
 Proof. exact three_parties_every_schedule. Qed.
 Print Assumptions C17_three_parties.
+
+(* any number of parties, every schedule *)
+Theorem C17_any_number_of_parties : forall kinds sched, (forall k, In k kinds -> In k all_kinds) ->
+  let s := grun kinds (init_state (length kinds)) sched in
+  finished kinds s = true -> final_ok kinds s = true /\ winners_report kinds s = true.
+Proof. exact any_number_of_parties. Qed.
+Print Assumptions C17_any_number_of_parties.
+
+(* the hypothesis "finished" is never vacuous: every schedule of any number of parties can be extended (by running the
+   parties one after the other, 16 calls each) to one in which all have finished *)
+Theorem C17_every_schedule_completes : forall kinds sched, (forall k, In k kinds -> In k all_kinds) ->
+  finished kinds (grun kinds (init_state (length kinds)) (sched ++ completion (length kinds))) = true.
+Proof. exact every_schedule_completes. Qed.
+Print Assumptions C17_every_schedule_completes.
+
+(* non-vacuity: six parties, one of each kind; the move, the rewrite and the cross-device move start, the move is the
+   first to remove the old name, then all are interleaved round-robin and run to completion: the message is at the
+   move's destination, the other mdsort runs report an error and have removed their copies *)
+Example C17_example_six :
+  let kinds := all_kinds in
+  let s := grun kinds (init_state 6) ([0; 2; 0; 2; 0; 2; 1; 1; 1; 0] ++ concat (repeat (seq 0 6) 3) ++ completion 6) in
+  finished kinds s = true /\
+  g_world s = [None; Some (Complete 0); None; None; None; None; None; None; None; None; None; None; None] /\
+  map (fun kh => status_of (fst kh) (snd kh)) (combine kinds (g_hist s)) = [Some 0; Some 1; Some 1; Some 1; Some 0; Some 0].
+Proof. vm_compute. repeat split; reflexivity. Qed.
 
 Theorem C17_scenarios : forall k, In k all_kinds <->
   k = KAct (AMove false) \/ k = KAct (AMoveX false) \/ k = KAct AWrite \/ k = KAct ADiscard \/ k = KExtRename \/ k = KExtDelete.
